@@ -110,6 +110,8 @@ impl RttEstimator {
     }
 
     pub fn sample(&mut self, new_rtt: Duration) {
+        #[cfg(librqbit_utp_verif)]
+        let verif_rto_before = self.retransmission_timeout();
         match &mut self.state {
             RttState::Initial { .. } => {
                 let srtt = new_rtt;
@@ -129,9 +131,13 @@ impl RttEstimator {
                 *rto = calc_rto(*srtt, *rttvar);
             }
         }
+        #[cfg(librqbit_utp_verif)]
+        self.verif_emit(crate::verif::RtoCall::Sample(new_rtt), verif_rto_before);
     }
 
     pub fn on_rto_timeout(&mut self) {
+        #[cfg(librqbit_utp_verif)]
+        let verif_rto_before = self.retransmission_timeout();
         // rfc6298 section 5.5
         match &mut self.state {
             RttState::Initial { rto } => {
@@ -141,5 +147,24 @@ impl RttEstimator {
                 *rto = clamp(*rto * 2);
             }
         };
+        #[cfg(librqbit_utp_verif)]
+        self.verif_emit(crate::verif::RtoCall::Timeout, verif_rto_before);
+    }
+}
+
+#[cfg(librqbit_utp_verif)]
+impl RttEstimator {
+    fn verif_emit(&self, call: crate::verif::RtoCall, rto_before: Duration) {
+        crate::verif::emit(|| crate::verif::ProbeEvent::Rto {
+            key: crate::verif::current(),
+            call,
+            rto_before,
+            rto_after: self.retransmission_timeout(),
+            srtt_after: self.roundtrip_time(),
+            rttvar_after: match self.state {
+                RttState::Initial { .. } => None,
+                RttState::Subsequent { rttvar, .. } => Some(rttvar),
+            },
+        });
     }
 }
